@@ -99,6 +99,9 @@ class Fixture:
         if init == "one_row":
             self.A.evaluate(DATA["s0"][0].copy(), DATA["s0"][1].copy(), "s0")
         self.files0 = dict(vfs.fs.files)
+        # module-level state of the library as it is right after construction: every replay (and every sequential reference run)
+        # starts from a fresh copy of it, exactly as it starts from a fresh copy of the aggregator object and of the files
+        self.image = sched.capture_image()
         self.header = agg.parse_tsv(self.files0["/vfs/d/out.tsv"])[0]
         self.base_rows = agg.parse_tsv(self.files0["/vfs/d/out.tsv"])[1:]
         # sequential reference rows
@@ -107,6 +110,7 @@ class Fixture:
             if n == "stat":
                 continue
             vfs.reset(dict(self.files0), dirs=["/vfs/d"])
+            sched.restore_image(self.image)
             copy.deepcopy(self.A).evaluate(_data(n)[0].copy(), _data(n)[1].copy(), _name(n))
             rows = agg.parse_tsv(vfs.fs.files["/vfs/d/out.tsv"])
             self.seq_rows[_name(n)] = rows[-1]
@@ -116,6 +120,7 @@ class Fixture:
         def mk():
             vfs.reset(dict(self.files0), dirs=["/vfs/d"])
             sched.reset_locks()
+            sched.restore_image(self.image)
             bodies = []
             shared = copy.deepcopy(self.A)  # every replay starts from the pristine post-construction object (in-memory state included)
             objs = []
@@ -130,7 +135,7 @@ class Fixture:
             # the in-memory state of the aggregator object(s) is part of the explored state: without it, states that differ only in
             # shared memory would be merged and interleavings behind them pruned
             uniq = objs[:1] if mode == "thread" else objs
-            return bodies, list(sched.ALL_LOCKS), {"mem_digest": lambda: hash((tuple(sched.digest(o) for o in uniq), sched.global_state_digest()))}
+            return bodies, list(sched.ALL_LOCKS), {"mem_digest": lambda: hash((tuple(sched.digest(o) for o in uniq), sched.global_state_digest())), "proc_images": mode == "process", "image": self.image}
 
         return mk
 
@@ -244,6 +249,8 @@ def _explore(acc, case, fx, workers, mode, init, judge):
             bodies, locks, _c = fx.make(workers, mode)()
             ex = sched.Execution(bodies, locks)
             ex.mem_digest = _c["mem_digest"]
+            if _c.get("proc_images"):
+                ex.proc_images = sched.ProcImages(len(bodies), _c.get("image"))
             ex.run(list(case["schedule"]), stop=False)
             keys.append((vfs.fs.snapshot(), tuple(ex.choices)))
         if keys[0] != keys[1]:
